@@ -14,8 +14,9 @@ OTHER = {"ode": ["initial_condition", "observations"], "statio": ["norm_loss", "
 def gen(rng, kind):
     nv = nvars(kind, 1)
     nu, ne = rng.randint(1, 3), rng.randint(1, 3)
-    ukeys = [f"u{j}" for j in range(nu)]
-    ekeys = [f"e{j}" for j in range(ne)]
+    # key names in any (not necessarily alphabetical) insertion order: weights and terms go with names, not positions
+    ukeys = rng.sample(["u0", "u1", "u2", "prey", "a", "Z", "v"], nu)
+    ekeys = rng.sample(["e0", "e1", "e2", "mass", "b", "X"], ne)
     n = rng.randint(1, 4)
 
     def wspec(keys):
@@ -183,7 +184,7 @@ def generate(tier, seed, casedir, variant):
             samples.append(dict(jsonable(cfg), returned=terms))
     write_cases(casedir, "C13", "R_C13", variant, cases, chunk=100)
     return dict(meta=meta, oracle_violations=viol, evaluations=len(cases), distinct_nontrivial=len(nontrivial), samples=samples, distribution=dist,
-                rule="random systems (ODE / stationary / non-stationary) with 1..3 equations and 1..3 unknowns (counts independent), residuals linear in the unknowns plus a polynomial that is not symmetric in (t, x), scalar / per-key dictionary / missing weights for every field, initial conditions, normalisation samples and observations per unknown (some unknowns without observations; some with a second output channel and an observation slice of their own); non-trivial = non-zero dynamic term",
+                rule="random systems (ODE / stationary / non-stationary) with 1..3 equations and 1..3 unknowns (counts independent, key names inserted in any order), residuals linear in the unknowns plus a polynomial that is not symmetric in (t, x), scalar / per-key dictionary / missing weights for every field, initial conditions, normalisation samples and observations per unknown (some unknowns without observations; some with a second output channel and an observation slice of their own); non-trivial = non-zero dynamic term",
                 oracle_checks=len(cases))
 
 
